@@ -309,6 +309,27 @@ ConstNotRepr == <<
        "float frem (float uitofp (i64 ptrtoint (i32* @x to i64) to float), float 2.0)",
        "{ i64, i8 } insertvalue ({ i64, i8 } undef, i64 ptrtoint (i32* @x to i64), 0)",
        "i64 extractvalue ({ i64, i8 } { i64 ptrtoint (i32* @x to i64), i8 0 }, 0)" >>
+\* Aggregates whose every leaf is a zero of some sort.  LLVM folds an aggregate of null values into
+\* zeroinitializer -- but -0.0 is not a null value: `[2 x float] [float -0.0, float -0.0]` keeps its sign bits
+\* (seeds C01-15, C10-13: a parser-side fold that tests floats with Sign() = 0).  Every zero-like leaf of every
+\* floating-point kind, integer and pointer, alone and next to the positive zero, in every container form.
+ZeroLeaves == << <<"float", "-0.0", "0.0">>, <<"float", "0.0", "0.0">>, <<"double", "-0.0", "0.0">>, <<"half", "0xH8000", "0xH0000">>,
+                 <<"half", "-0.0", "0.0">>, <<"x86_fp80", "0xK80000000000000000000", "0xK00000000000000000000">>,
+                 <<"fp128", "0xL00000000000000008000000000000000", "0xL00000000000000000000000000000000">>,
+                 <<"ppc_fp128", "0xM80000000000000000000000000000000", "0xM00000000000000000000000000000000">>,
+                 <<"i32", "0", "0">>, <<"i8*", "null", "null">>, <<"float", "zeroinitializer", "-0.0">> >>
+ZeroAggForms(t, v, p) ==
+  << "[2 x " \o t \o "] [" \o t \o " " \o v \o ", " \o t \o " " \o v \o "]",
+     "[2 x " \o t \o "] [" \o t \o " " \o p \o ", " \o t \o " " \o v \o "]",
+     "<2 x " \o t \o "> <" \o t \o " " \o v \o ", " \o t \o " " \o v \o ">",
+     "<2 x " \o t \o "> <" \o t \o " " \o v \o ", " \o t \o " " \o p \o ">",
+     "{ " \o t \o ", i32 } { " \o t \o " " \o v \o ", i32 0 }",
+     "<{ i8, " \o t \o " }> <{ i8 0, " \o t \o " " \o v \o " }>",
+     "[2 x [1 x " \o t \o "]] [[1 x " \o t \o "] [" \o t \o " " \o v \o "], [1 x " \o t \o "] zeroinitializer]",
+     "{ [1 x " \o t \o "], <1 x " \o t \o "> } { [1 x " \o t \o "] [" \o t \o " " \o v \o "], <1 x " \o t \o "> <" \o t \o " " \o v \o "> }" >>
+RECURSIVE ConcatAll(_)
+ConcatAll(ss) == IF ss = <<>> THEN <<>> ELSE Head(ss) \o ConcatAll(Tail(ss))
+ZeroAggs == ConcatAll([k \in 1..Len(ZeroLeaves) |-> ZeroAggForms(ZeroLeaves[k][1], ZeroLeaves[k][2], ZeroLeaves[k][3])])
 CONSTS == Fam("const",
   "%S = type { i32, %S* }\n%O = type opaque\n%P = type <{ i8, i32 }>\n@x = global i32 0\n@y = global [4 x i32] zeroinitializer\ndeclare void @fn()\n",
   "@g = global {tc}\n",
@@ -340,7 +361,7 @@ CONSTS == Fam("const",
        "<2 x i64> insertelement (<2 x i64> zeroinitializer, i64 ptrtoint (i32* @x to i64), i32 1)",
        "<2 x i64> shufflevector (<2 x i64> <i64 ptrtoint (i32* @x to i64), i64 0>, <2 x i64> undef, <2 x i32> <i32 1, i32 0>)",
        "void ()* dso_local_equivalent @fn", "void ()* no_cfi @fn"
-     >> \o ConstNotRepr) >>,
+     >> \o ZeroAggs \o ConstNotRepr) >>,
   {}, FALSE)
 CONSTValid(c) == c.tc # "void ()* no_cfi @fn"        \* no_cfi is LLVM 15
 
@@ -531,6 +552,26 @@ DIValid(kind, c) ==
 ----------------------------------------------------------------------------
 \* Non-canonical spellings of whole modules (C02: one parse+print normalises; LLVM does not
 \* arbitrate all of them, e.g. s0x literals)
+\* Numerically spelled enumerators: `cc N` for every N the enum range of LLVM 14 covers (0..101), the gaps and
+\* values beyond it.  A value whose String() is a keyword the grammar does not know is silently dropped by the
+\* lexer (seed C02-16: keyword drift between printer and parser shows only as a lost calling convention on the
+\* SECOND round).  One module per block of 32 conventions, at declarations and at call sites.
+RECURSIVE CCDecls(_, _)
+CCDecls(lo, hi) == IF lo > hi THEN "" ELSE "declare cc " \o ToString(lo) \o " void @f" \o ToString(lo) \o "()\n" \o CCDecls(lo + 1, hi)
+RECURSIVE CCCalls(_, _)
+CCCalls(lo, hi) == IF lo > hi THEN "" ELSE "  call cc " \o ToString(lo) \o " void @f" \o ToString(lo) \o "()\n" \o CCCalls(lo + 1, hi)
+CCModule(lo, hi) == CCDecls(lo, hi) \o "define void @caller() {\n" \o CCCalls(lo, hi) \o "  ret void\n}"
+\* References to attribute groups that have no definition (the documented exception of C05: materialised as empty
+\* groups).  LLVM rejects such input, the parser accepts it, so the fixpoint law applies: the IDs are referenced in
+\* descending order inside one header, across headers and call sites, and -- for the order in which the translator's
+\* map yields the functions -- by twelve functions at once (seed C02-15).
+RECURSIVE UndefGroupDecls(_, _)
+UndefGroupDecls(lo, hi) == IF lo > hi THEN "" ELSE "declare void @f" \o ToString(lo) \o "() #" \o ToString(lo) \o "\n" \o UndefGroupDecls(lo + 1, hi)
+SpellGenerated == <<
+       CCModule(0, 31), CCModule(32, 63), CCModule(64, 95), CCModule(96, 127), CCModule(1020, 1023),
+       "declare void @f() #7 #3\ndeclare void @g() #5\ndefine void @h() #9 #1 {\n  call void @f() #8 #2\n  ret void\n}",
+       "attributes #4 = { nounwind }\ndeclare void @f() #6 #4 #2\ndeclare void @g() #0",
+       UndefGroupDecls(1, 12) >>
 SPELL == Fam("spell",
   "",
   "{text}\n",
@@ -570,7 +611,7 @@ SPELL == Fam("spell",
        "!0 = !DISubrange(upperBound: 9, lowerBound: 1)\n!1 = !DIFile(directory: \"/d\", filename: \"f.c\")\n!2 = !DIBasicType(encoding: DW_ATE_signed, size: 32, name: \"int\")\n!e = !{!0, !1, !2}",
        "attributes #0 = { alignstack=8 \"a\"=\"b\" }\nattributes #0 = { alignstack=8 \"a\" = \"b\" nounwind }\ndeclare void @f() #0",
        "@a = global x86_fp80 0xK00018000000000000000\n@b = global x86_fp80 0xK0FFF8000000000000000\n@c = global x86_fp80 0xK00000000000000000001\n@d = global x86_fp80 0xK80018000000000000000\n@e = global fp128 0xL00000000000000000001000000000000\n@f = global ppc_fp128 0xM00100000000000000000000000000000\n@g = global half 0xH0001\n@h = global float 0x36A0000000000000\n@i = global double 0x0000000000000001"
-     >>) >>,
+     >> \o SpellGenerated) >>,
   {}, FALSE)
 
 ----------------------------------------------------------------------------
@@ -590,7 +631,14 @@ PairCfgs(F) == UNION { { [Default(F) EXCEPT ![p[1]] = F.slots[AltsOf(F, p[1])].a
                            x \in (1..Len(F.slots[AltsOf(F, p[1])].alts)) \X (1..Len(F.slots[AltsOf(F, p[2])].alts)) } : p \in PairsOf(F) }
 \* every optional field present (second alternative where there is one)
 Full(F) == [s \in SlotNames(F) |-> LET al == F.slots[AltsOf(F, s)].alts IN IF Len(al) >= 2 /\ al[1] = "" THEN al[2] ELSE al[1]]
-Configs(F) == Singles(F) \cup PairCfgs(F) \cup (IF F.full THEN {Full(F)} ELSE {})
+\* Three-way crossing.  LLVM's writer and reader treat dso_local as IMPLIED by local linkage or non-default
+\* visibility -- except for extern_weak (GlobalValue::isImplicitDSOLocal): whether the keyword may be dropped
+\* depends on linkage, visibility and preemption together (seeds C01-16, C18-14), which no pair of slots shows.
+TriplesOf(F) == IF F.name \in {"gv", "fn", "fd"} THEN {<<"linkage", "vis", "preempt">>} ELSE {}
+TripleCfgs(F) == UNION { { [Default(F) EXCEPT ![p[1]] = F.slots[AltsOf(F, p[1])].alts[x[1]], ![p[2]] = F.slots[AltsOf(F, p[2])].alts[x[2]],
+                                              ![p[3]] = F.slots[AltsOf(F, p[3])].alts[x[3]]] :
+                           x \in (1..Len(F.slots[AltsOf(F, p[1])].alts)) \X (1..Len(F.slots[AltsOf(F, p[2])].alts)) \X (1..Len(F.slots[AltsOf(F, p[3])].alts)) } : p \in TriplesOf(F) }
+Configs(F) == Singles(F) \cup PairCfgs(F) \cup TripleCfgs(F) \cup (IF F.full THEN {Full(F)} ELSE {})
 
 Valid(F, c) ==
   CASE F.name = "gv" -> GVValid(c) [] F.name = "fn" -> FNValid(c) [] F.name = "fd" -> FDValid(c)
